@@ -31,6 +31,7 @@
 (* L1: reported iff P # d and neither path(P) nor name(P) is in the union  *)
 (* of the lists.  Deviations: FirstLineOnly, NoNameMatch, NoDedup,         *)
 (* NoUnalias (a type reference spelled through an alias is invisible),     *)
+(* ExportedOnly (items with unexported names do not cross packages),       *)
 (* TypeHidesMethods (the allow-list of an annotated type replaces the      *)
 (* lists of its methods).                                                  *)
 (***************************************************************************)
@@ -43,9 +44,10 @@ VARIABLES prog, fi, ci, ph, reported, diags
 vars == <<prog, fi, ci, ph, reported, diags>>
 
 Shapes == {"none", "bare", "name", "path", "lastelem", "other", "two_in", "two_out", "dup"}
-Refs == {"callF", "funcValue", "methCall", "methCallPS", "methCallVar", "methValue", "methCallPromoted", "methValuePromoted", "typeLit", "typeVar", "typeField", "typeParam", "typeResult",
+Refs == {"callF", "funcValue", "methCall", "methCallPS", "methCallHidden", "typeVarHidden", "methCallVar", "methValue", "methCallPromoted", "methValuePromoted", "typeLit", "typeVar", "typeField", "typeParam", "typeResult",
          "typeLit2", "plain"}
 TypeRefs == {"typeLit", "typeVar", "typeField", "typeParam", "typeResult", "typeLit2"}
+HiddenRefs == {"methCallHidden", "typeVarHidden"}   \* d.Default.HM() on the unexported type hid; d.State, an exported alias of the unexported type state
 Pkgs == {"d", "u", "v"}
 
 \* C13: spelled type references are encoded as "<ref>@<spelling>"; the verdict ignores the spelling
@@ -87,12 +89,12 @@ ShapeOf(r0, al) == LET r == Base(r0) IN IF r = "typeLit2" THEN "bare" ELSE IF r 
 Allowed(P, ls) == P = "d" \/ PathOf(P) \in Union(ls) \/ NameOf(P) \in Union(ls)
 
 CodeOf(r0) == LET r == Base(r0) IN
-             CASE r \in {"callF", "funcValue"} -> "PKGO02" [] r \in {"methCall", "methCallPS", "methCallVar", "methValue", "methCallPromoted", "methValuePromoted"} -> "PKGO03"
-               [] r \in TypeRefs -> "PKGO01" [] OTHER -> "none"
+             CASE r \in {"callF", "funcValue"} -> "PKGO02" [] r \in {"methCall", "methCallPS", "methCallHidden", "methCallVar", "methValue", "methCallPromoted", "methValuePromoted"} -> "PKGO03"
+               [] r \in TypeRefs \cup {"typeVarHidden"} -> "PKGO01" [] OTHER -> "none"
 
 Cand(r, al, P) == IF ShapeOf(r, al) # "none" /\ CodeOf(r) # "none" /\ ~Allowed(P, Lines(ShapeOf(r, al), P)) THEN CodeOf(r) ELSE "none"
 
-TypeOf(r) == IF Base(r) = "typeLit2" THEN "PT2" ELSE "PT"
+TypeOf(r) == IF Base(r) = "typeLit2" THEN "PT2" ELSE IF r = "typeVarHidden" THEN "state" ELSE "PT"
 
 Keys(p) == UNION {{<<f, i>> : i \in 1..Len(p.files[f])} : f \in 1..Len(p.files)}
 Reported(p, f, i) ==
@@ -102,7 +104,7 @@ Reported(p, f, i) ==
      /\ (code = "PKGO01" => \A j \in 1..(i - 1) : ~(Cand(p.files[f][j], p.al, p.pkg) = "PKGO01" /\ TypeOf(p.files[f][j]) = TypeOf(r)))
 L1(p) == {<<k[1], k[2], Cand(p.files[k[1]][k[2]], p.al, p.pkg)>> : k \in {k \in Keys(p) : Reported(p, k[1], k[2])}}
 
-SeqRefs == {"typeLit", "typeVar", "typeParam", "typeLit2", "callF", "methCall", "methCallPS", "methCallVar"}
+SeqRefs == {"typeLit", "typeVar", "typeParam", "typeLit2", "callF", "methCall", "methCallPS", "methCallVar", "typeVarHidden"}
 
 InitProg ==
   \/ /\ Mode = "single"
@@ -141,6 +143,7 @@ Visit ==
          sh == ShapeOf(r, prog.al)
          code == IF "NoUnalias" \in Deviations /\ ViaAlias(r) THEN "none"
                  ELSE IF "TypeHidesMethods" \in Deviations /\ r = "methCallPS" THEN "none"
+                 ELSE IF "ExportedOnly" \in Deviations /\ r \in HiddenRefs /\ prog.pkg # "d" THEN "none"
                  ELSE IF sh # "none" /\ CodeOf(r) # "none" /\ ~IndexAllowed(prog.pkg, IndexLines(sh, prog.pkg)) THEN CodeOf(r) ELSE "none"
      IN IF code = "none" THEN UNCHANGED <<reported, diags>>
         ELSE IF code = "PKGO01" /\ ~("NoDedup" \in Deviations)
